@@ -11,6 +11,9 @@ case "$id" in
   C10|C11|C33) kind=race ;;
   *) kind=plain ;;
 esac
+if [ -n "$VP_RUN_REPO" ] && [ -d "$VP_RUN_REPO" ]; then
+  go mod edit -replace github.com/cosmos72/gomacro="$VP_RUN_REPO" || exit 2
+fi
 if [ "$id" = C17 ]; then
   # C17 owns Go's map iteration order inside base/dep: rewrite every range over a map in a
   # scratch copy and compile it in with -overlay (regenerated from /repo's tree on every run)
